@@ -499,10 +499,11 @@ type vNodeCfg struct {
 }
 
 type vConnCfg struct {
-	At   int    `json:"at"`
-	Peer int    `json:"peer"`
-	Auth bool   `json:"auth"`
-	Did  string `json:"did"`
+	At     int    `json:"at"`
+	Peer   int    `json:"peer"`
+	Auth   bool   `json:"auth"`
+	Did    string `json:"did"`
+	PeerID string `json:"peerid,omitempty"` // self-asserted (unverified) peer ID announced on this connection; default node<peer>
 }
 
 type vScenario struct {
@@ -618,6 +619,8 @@ type vLeak struct {
 	SrcDid   string `json:"src_did"`
 	Pal      []string `json:"pal"`
 	Allowed  bool   `json:"allowed"`
+	RefTx    int    `json:"ref_tx"`   // for TransactionPayload messages: the transaction the reply is for (-1 unknown)
+	RefPal   []string `json:"ref_pal"`
 }
 
 type vSim struct {
@@ -774,8 +777,18 @@ func (s *vSim) send(src, dst int, env *Envelope) {
 				return false
 			}
 			allowed := kind == "pl" && c.peer.Authenticated && onList(c.peer.NodeDID.String()) && onList(s.nodes[src].cfg.Did)
+			refTx := -1
+			var refPal []string
+			if m := env.GetTransactionPayload(); m != nil {
+				if rt := s.u.byRef[hash.FromSlice(m.TransactionRef)]; rt != nil {
+					refTx = rt.idx
+					if rt.pal != nil {
+						refPal = rt.pal.dids
+					}
+				}
+			}
 			s.leaks = append(s.leaks, vLeak{Scenario: s.sc.Name, Msg: pk.id, Kind: kind, Src: src, Dst: dst, Tx: idx, PeerAuth: c.peer.Authenticated,
-				PeerDid: c.peer.NodeDID.String(), SrcDid: s.nodes[src].cfg.Did, Pal: t.pal.dids, Allowed: allowed})
+				PeerDid: c.peer.NodeDID.String(), SrcDid: s.nodes[src].cfg.Did, Pal: t.pal.dids, Allowed: allowed, RefTx: refTx, RefPal: refPal})
 		}
 	}
 	s.sent = append(s.sent, pk)
@@ -1293,6 +1306,9 @@ func (s *vSim) startScenario(sc vScenario, dir string) {
 	for _, cc := range sc.Conns {
 		n := s.nodes[cc.At]
 		peer := transport.Peer{ID: transport.PeerID(fmt.Sprintf("node%d", cc.Peer)), Address: fmt.Sprintf("node%d:5555", cc.Peer), Authenticated: cc.Auth}
+		if cc.PeerID != "" {
+			peer.ID = transport.PeerID(cc.PeerID)
+		}
 		if cc.Did != "" {
 			peer.NodeDID = did.MustParseDID(cc.Did)
 		}
